@@ -227,6 +227,14 @@ func (v *value) merge(base *value) {
 		return
 	}
 
+	// Never hang a value beneath a chain that already contains it: a cyclic chain of bases would make every walk of
+	// the chain (keys, property, export) recurse forever.
+	for b := base; b != nil; b = b.base {
+		if b == v {
+			return
+		}
+	}
+
 	if v.base != nil {
 		// If this value already has a base, apply the merge to its base.
 		v.base.merge(base)
